@@ -1,6 +1,7 @@
 //! vharness — drives the real versatiles code for the TLA+-based checks in /verif.
 //! It never judges: it executes cases and records observations as ndjson; TLC decides.
 mod c12;
+mod httpd;
 mod pmt;
 mod c13;
 mod c14;
